@@ -224,6 +224,17 @@ static void global_rewrites(const Node& root, const std::function<void(const std
     for (size_t v = 0; v < values.size(); v++) { Node w = root; std::vector<Node*> maps; visit(w, [&](Node& n) { if (n.major == 5) maps.push_back(&n); });
         for (auto it = maps.rbegin(); it != maps.rend(); ++it) (*it)->kids.insert((*it)->kids.begin(), {mk_int(v & 1 ? -77 : 77), values[v]}); f("unknown-in-every-map-val" + std::to_string(v), encode(w)); }
     { Node w = root; visit(w, [](Node& n) { if (n.major == 4 || n.major == 5) n.indef = true; if (n.major <= 1) n.ai = 27; }); chunk_all(w); f("everything-at-once", encode(w)); }
+    // every container indefinite + an unknown preamble member whose byte-string value pads the file so that the BREAK of one chosen container is the first byte of a
+    // decoder window (offset k * 65535): the outer file array, the block array, and a spread of the others (the break that no caller peeks at before reading it)
+    { Node w = root; visit(w, [](Node& n) { if (n.major == 4 || n.major == 5) n.indef = true; });
+      auto breaks = [](const std::string& enc) { Node r = parse_exact(enc); std::vector<size_t> v; visit((const Node&)r, [&](const Node& n) { if ((n.major == 4 || n.major == 5) && n.indef) v.push_back(n.end - 1); }); return v; };
+      auto padded = [&](size_t pad) { Node x = w; x.kids[1].kids.insert(x.kids[1].kids.begin(), {mk_int(-77), mk_bstr(std::string(pad, '\x5a'))}); return encode(x); };
+      std::vector<size_t> b0 = breaks(padded(W)); std::set<size_t> pick = {0, 1}; { size_t c = 0; visit((const Node&)w, [&](const Node& n) { if ((n.major == 4 || n.major == 5)) { if (&n == &w.kids[2]) pick.insert(c); c++; } }); }
+      for (size_t k = 2; k < b0.size(); k += std::max<size_t>(1, b0.size() / 6)) pick.insert(k);
+      for (size_t k : pick) { if (k >= b0.size()) continue; size_t pad = W; std::string enc;
+          for (int it = 0; it < 8; it++) { enc = padded(pad); std::vector<size_t> br = breaks(enc); if (br.size() != b0.size()) break; size_t off = br[k] % W; if (off == 0) break; pad += W - off; if (pad > 2 * W) pad -= W; }
+          std::vector<size_t> br = breaks(enc); if (br.size() != b0.size() || br[k] % W != 0 || (unsigned char)enc[br[k]] != 0xff) continue;
+          f("indefinite-break-on-window-" + std::to_string(k), enc); } }
 }
 
 // =========================================================================================== mutate (C03)
